@@ -15,7 +15,7 @@ func (e *Engine) declAddrStr() {
 	e.vc.declFun("bech32ok", []string{"Str"}, "Bool")
 	e.vc.declFun("accbv", []string{"Str"}, "BV")
 	e.vc.declSort("(assert (forall ((s Str)) (! (= (addr_acc (accbv s)) (addr_str s)) :pattern ((accbv s)))))")
-	e.vc.declSort("(assert (forall ((b BV)) (! (and (= (addr_str (acc_str b)) (addr_acc b)) (bech32ok (acc_str b))) :pattern ((acc_str b)))))")
+	e.vc.declSort("(assert (forall ((b BV)) (! (and (= (addr_str (acc_str b)) (addr_acc b)) (bech32ok (acc_str b)) (= (accbv (acc_str b)) b)) :pattern ((acc_str b)))))")
 }
 
 // freshAddrSlice returns a fresh byte slice standing for an address with the given abstract identity.
